@@ -12,9 +12,9 @@ from vlib.core import Inconclusive, goenv
 from vlib import crashfs
 
 EXPLICIT = ["node-id=0f1e2d3c4b5a69788796a5b4c3d2e1f001234567",
-            "private-key=a0a1a2a3a4a5a6a7a8a9aaabacadaeafb0b1b2b3b4b5b6b7b8b9babbbcbdbebf70",
+            "private-key=a0a1a2a3a4a5a6a7a8a9aaabacadaeafb0b1b2b3b4b5b6b7b8b9babbbcbdbebf",
             "drbg-seed=00112233445566778899aabbccddeeff0011223344556677"]
-EXPLICIT_ID = "0f1e2d3c4b5a69788796a5b4c3d2e1f001234567|a0a1a2a3a4a5a6a7a8a9aaabacadaeafb0b1b2b3b4b5b6b7b8b9babbbcbdbebf70|00112233445566778899aabbccddeeff0011223344556677"
+EXPLICIT_ID = "0f1e2d3c4b5a69788796a5b4c3d2e1f001234567|a0a1a2a3a4a5a6a7a8a9aaabacadaeafb0b1b2b3b4b5b6b7b8b9babbbcbdbebf|00112233445566778899aabbccddeeff0011223344556677"
 
 
 def start_args(kind, first_explicit):
@@ -23,7 +23,9 @@ def start_args(kind, first_explicit):
     if kind.startswith("iat"):
         return ["iat-mode=" + kind[3]], kind[3]
     if kind == "explicit":
-        return list(EXPLICIT), ""
+        # explicit identity arguments specify the complete state: without an iat-mode argument the
+        # operator asks for the default IAT mode 0 (documented behaviour of the option parser)
+        return list(EXPLICIT), "0"
     if kind.startswith("explicit+iat"):
         return list(EXPLICIT) + ["iat-mode=" + kind[-1]], kind[-1]
     raise ValueError(kind)
@@ -100,6 +102,8 @@ def explore_history(ctx, binary, hist, hid, traces, stats):
             stats["crash_states"] += 1
         prefix += completed_events(res, ov)
         if not res.get("ok"):
+            if i == 1:
+                raise Inconclusive("the very first start of history %s failed: %s" % (hist, res))
             break
     traces.append({"id": "%s-nokill" % hid, "scenario": {"history": hist}, "events": prefix})
     shutil.rmtree(root, ignore_errors=True)
